@@ -302,7 +302,7 @@ func genHistory(r *Rng, n int, maxLine int) []opT {
 // ---------------------------------------------------------------- driver
 
 func runC15(c *Ctx) {
-	c.Res.Rule = "a case is (ConditionalLevel, TriggerLevel, destination kind LevelWriter|io.Writer, history of WriteLevel(level, line)/Trigger/Close); observed = per operation the destination calls made during it (level, bytes) and its result. Bounded-exhaustive: every history of <=4 operations over {W at 7 levels, Trigger, Close} for all 49 threshold pairs from {-128,-1,0,3,9,11,127} is run and monitored (the model evaluates all histories of <=2 operations, a fixed 1/4 of those of 3 and 1/32 of those of 4; thorough: all, and length 5 for 9 pairs); then seeded random histories (<=40 operations, thorough <=80, random int8 levels != 10, random line bytes without interior newline, long lines, both destination kinds), a malformed stream for the correspondence only (level 10, interior newline, unterminated line, failing destination), and concurrent runs. non-trivial = something was held and later released or discarded, and something passed through; distinct by case text"
+	c.Res.Rule = "a case is (ConditionalLevel, TriggerLevel, destination kind LevelWriter|io.Writer, history of WriteLevel(level, line)/Trigger/Close); observed = per operation the destination calls made during it (level, bytes) and its result. Bounded-exhaustive: every history of <=4 operations over {W at 7 levels, Trigger, Close} for all 49 threshold pairs from {-128,-1,0,3,9,11,127} is run and monitored (the model evaluates all histories of <=2 operations, a fixed 1/4 of those of 3 and 1/32 of those of 4; thorough: all, and length 5 for 4 pairs); then seeded random histories (<=40 operations, thorough <=80, random int8 levels != 10, random line bytes without interior newline, long lines, both destination kinds), several writers alive at once sharing the buffer pool, a malformed stream for the correspondence only (level 10, interior newline, unterminated line, failing destination), and concurrent runs. non-trivial = something was held and later released or discarded, and something passed through; distinct by case text"
 	c.OpenShards("From Verif Require Import Base.Prelude Misc.Level Lts.Trigger Harness.C15H.\nOpen Scope Z_scope.",
 		"(tcfg * script * list op) * list (list dcall * mret)", "mismatches c15_run c15_eqb", 1000)
 
@@ -382,7 +382,7 @@ func runC15(c *Ctx) {
 		}
 	}
 	if c.Thorough() {
-		for _, pr := range [][2]int{{0, 3}, {3, 0}, {-1, -1}, {-128, 127}, {127, -128}, {9, 11}, {11, 9}, {0, 0}, {-1, 127}} {
+		for _, pr := range [][2]int{{0, 3}, {3, 0}, {-1, -1}, {9, 11}} {
 			rec(nil, 5, func(h []sym) {
 				if len(h) == 5 {
 					emit(mk(h, pr[0], pr[1], true), "exhaustive-5", true, false)
@@ -462,6 +462,51 @@ func runC15(c *Ctx) {
 		small := &caseT{Cond: 0, Trig: 3, LW: true, Ops: []opT{{Kind: "w", Level: 0, Line: []byte("x\n")}, {Kind: "t"}}}
 		emit(small, "buffer-reuse-limit", true, false)
 		c.Res.ExtraCoverage["buffer_reuse_limit"] = zerolog.TriggerLevelWriterBufferReuseLimit
+	}
+
+	// 5b. several writers alive at once share the buffer pool: each must only ever release its own lines
+	npool := 200
+	if c.Thorough() {
+		npool = 3000
+	}
+	for i := 0; i < npool; i++ {
+		r := c.R.Fork()
+		nw := 2 + r.Intn(2)
+		css := make([]*caseT, nw)
+		recs := make([]*recorder, nw)
+		ws := make([]*zerolog.TriggerLevelWriter, nw)
+		obss := make([][]obsT, nw)
+		for k := range css {
+			css[k] = &caseT{Cond: 0, Trig: 3, LW: true}
+			if r.Chance(30) {
+				css[k].Cond, css[k].Trig = c15levels[r.Intn(len(c15levels))], c15levels[r.Intn(len(c15levels))]
+			}
+			recs[k] = &recorder{}
+			ws[k] = newWriter(css[k], recs[k])
+		}
+		all := genHistory(r, 4+r.Intn(30), 8)
+		for _, o := range all {
+			k := r.Intn(nw)
+			if o.Kind == "w" {
+				o.Line = append([]byte(fmt.Sprintf("w%d:", k)), o.Line...)
+			}
+			before := len(recs[k].calls)
+			res := doOp(ws[k], o)
+			res.Calls = append([]dcallT{}, recs[k].calls[before:]...)
+			css[k].Ops = append(css[k].Ops, o)
+			obss[k] = append(obss[k], res)
+		}
+		for k := range css {
+			ws[k].Close()
+			if len(css[k].Ops) == 0 {
+				continue
+			}
+			nt := monitorCase(c, css[k], obss[k])
+			term := caseTerm(css[k], obss[k])
+			c.AddCase(term, caseJSON(css[k], obss[k]))
+			c.Count(term, nt)
+			c.Hist("group", "shared-pool")
+		}
 	}
 
 	// 6. malformed stream: outside the property's quantifier, correspondence only (the model
